@@ -1,3 +1,5 @@
+\* spec mutant: byte_len_cmp measures the escaped text of a string field (\\n, \\", \\\\ count 2, \\uXXXX 6) instead of its value.
+\* TLC MUST reject it (ImplRefinesDecl) on part E.
 SPECIFICATION Spec
 CONSTANTS
   Chars = {1, 2, 3}
@@ -7,13 +9,13 @@ CONSTANTS
   PoolN = 4
   Depth3 = FALSE
   M_ShiftOnce = TRUE
-  M_LenOfValue = TRUE
+  M_LenOfValue = FALSE
   M_ContainsAnyRunes = TRUE
   UChars = {1, 40, 41, 42, 43, 45, 46, 48, 49}
   UMaxData = 2
-  PartsOn = {}
+  PartsOn = {"E"}
   D_FoldWidth = TRUE
   D_ContainerNul = TRUE
   D_EmptyContainerLen = TRUE
-INVARIANTS TypeOK ImplRefinesDecl LogicLaws ValueOrderIrrelevant Export
+INVARIANTS TypeOK ImplRefinesDecl
 CHECK_DEADLOCK FALSE
